@@ -23,8 +23,8 @@ func init() {
 			"x AllowIDPInitiated on/off x custom ValidateRequestID {none, returns nil, returns error} x entry points {XML, POST form, artifact XML, artifact over a scripted HTTP resolver answering with same/other/empty/absent/previous resolve ID}. The complete cross product for the single-confirmation shape is enumerated; two-confirmation shapes are sampled. " +
 			"Non-trivial = reached request-ID validation (signature verified); distinct by the full case vector.",
 		Assumptions: []string{"with a custom ValidateRequestID only 'accepted => validator was called and returned nil' and 'validator error => rejected' are judged"},
-		FloorQuick:  3000,
-		FloorThor:   30000,
+		FloorQuick:  1200,
+		FloorThor:   4000,
 		Exhaustive:  true,
 		Run:         runC04,
 		LevelText:   "Complete cross product of outstanding-ID sets and InResponseTo values at both levels for every entry point on validly signed messages, judged by set membership computed by the harness; the artifact resolver is scripted so the binding of ArtifactResponse to the just-issued ArtifactResolve is observed on the wire. Held-on-observed.",
